@@ -185,3 +185,98 @@ def judge(v, pid, traces, behaviours_by_id, strict, obs, mism, fields, rollback=
             v.note_drift(f"trace {tid} not explained at event {m['l']} ({m['ev']}): model pc={m['pc']} res={m['res']}, "
                          f"code logged {json.dumps(m['got'])[:300]}")
     return stats
+
+
+def slim(e):
+    """a readable form of a hist/trace event for samples"""
+    d = {k: e[k] for k in e if k in ("ev", "req", "o", "now", "enforce", "res")}
+    if "s" in e:
+        d["s"] = {x: e["s"][x] for x in ("k", "v", "signers", "exp", "len", "b") if x in e["s"]}
+        if "pin" in e["s"]:
+            d["s"]["pin"] = {"v": e["s"]["pin"]["v"], "len": e["s"]["pin"]["len"], "hash": e["s"]["pin"]["h"].get("k") != "none"}
+    if "shipped" in e:
+        d["shipped"] = {x: e["shipped"][x] for x in ("v", "signers", "rk", "rthr", "exp") if x in e["shipped"]}
+    return d
+
+
+def run_plan(pid, tier, seed, mcs, gens, fields, nontrivial, rule, assumptions, rollback=False, c14=False,
+             exhaustive=True, tvconsts=None, group_key=None):
+    """mcs: [(module, base_cfg, overrides, tag)] model-check runs.
+    gens: [(module, base_cfg, overrides, tag, opts)] behaviour generators; opts: simulate, depth, unit, vmap,
+          chunk, tick, limits (override dict merged into behaviour limits), every (subsample stride).
+    group_key(b) -> dict of Trace_Client constants for that behaviour (traces are validated per group)."""
+    v = vlib.Verdict(pid, tier, seed)
+    states = trans = 0
+    mc_runs = []
+    for module, base, over, tag in mcs:
+        r = model_check(module, base, over, tag)
+        if not r.ok:
+            raise ToolError(f"{module} ({tag}) violates an invariant of the model:\n{r.violation[-3000:]}")
+        states += r.distinct
+        trans += r.generated
+        mc_runs.append({"module": module, "tag": tag, "states": r.distinct, "wall_s": round(r.wall, 1)})
+    behaviours = []
+    for module, base, over, tag, opts in gens:
+        g, bs = generate(module, base, over, tag, simulate=opts.get("simulate"), depth=opts.get("depth"),
+                         seed=seed if opts.get("simulate") else None, timeout=opts.get("timeout", 900),
+                         extra_lines=opts.get("extra_lines", ()))
+        stride = opts.get("every", 1)
+        if stride > 1:
+            bs = bs[seed % stride::stride]
+        for i, b in enumerate(bs):
+            b["id"] = f"{tag}-{i}"
+            for k in ("unit", "vmap", "chunk", "tick"):
+                if k in opts:
+                    b[k] = opts[k]
+            if "limits" in opts:
+                b["limits"] = dict(b.get("limits", {}), **opts["limits"])
+        behaviours += bs
+    by_id = {b["id"]: b for b in behaviours}
+    traces = replay(behaviours, pid.lower() + "-replay")
+    groups = {}
+    for tid, evs in traces.items():
+        b = by_id[tid]
+        c = dict(tvconsts or {})
+        c.update({"LimRoot": b["limits"]["root"], "LimTs": b["limits"]["ts"], "LimSn": b["limits"]["sn"],
+                  "LimTg": b["limits"]["tg"], "MaxRootUpdates": b["limits"]["updates"],
+                  "Unit": b.get("unit", 4096), "Chunk": b.get("chunk", 0)})
+        if group_key:
+            c.update(group_key(b))
+        groups.setdefault(json.dumps(c, sort_keys=True), {})[tid] = evs
+    st = {"traces": 0, "explained": 0, "unexplained": 0, "cycles": 0, "obs_stricter": 0}
+    nev = 0
+    for gi, (ck, trs) in enumerate(groups.items()):
+        strict, obs, mism, n, _ = validate(trs, f"{pid.lower()}-g{gi}", json.loads(ck))
+        s = judge(v, pid, trs, by_id, strict, obs, mism, fields, rollback=rollback, c14=c14)
+        for k in s:
+            st[k] = st.get(k, 0) + s[k]
+        nev += n
+    nts = [b for b in behaviours if nontrivial(b)]
+    samples = [{"id": b["id"], "hist": [slim(e) for e in b["hist"]]} for b in (nts[:1] + nts[len(nts) // 2:len(nts) // 2 + 1])]
+    if not samples and behaviours:
+        samples = [{"id": behaviours[0]["id"], "hist": [slim(e) for e in behaviours[0]["hist"]]}]
+    cov = {"states": states, "transitions": trans, "traces_validated_against_impl": st["traces"],
+           "samples": samples, "evaluations": st["cycles"], "distinct_nontrivial": len(nts), "rule": rule,
+           "behaviours": len(behaviours), "trace_events": nev, "explained_by_model": st["explained"],
+           "not_explained": st["unexplained"], "obs_predicates_stricter_than_model": st.get("obs_stricter", 0),
+           "model_runs": mc_runs, "exhaustive": exhaustive}
+    return v, cov, assumptions, behaviours
+
+
+def replay_one(pid, path, seed, fields, rollback=False, c14=False, tvconsts=None):
+    rp = json.load(open(path))["replay"]
+    b = rp["behaviour"]
+    v = vlib.Verdict(pid, "quick", seed)
+    traces = replay([b], pid.lower() + "-replay1", shards=1)
+    c = dict(tvconsts or {})
+    c.update({"LimRoot": b["limits"]["root"], "LimTs": b["limits"]["ts"], "LimSn": b["limits"]["sn"],
+              "LimTg": b["limits"]["tg"], "MaxRootUpdates": b["limits"]["updates"],
+              "Unit": b.get("unit", 4096), "Chunk": b.get("chunk", 0)})
+    strict, obs, mism, nev, _ = validate(traces, pid.lower() + "-r1", c)
+    judge(v, pid, traces, {b["id"]: b}, strict, obs, mism, fields, rollback=rollback, c14=c14)
+    for what, r in v.violations:
+        log(f"VIOLATION property={pid} replay={path}")
+        log("  " + what)
+    for fid, h in v.known_hits.items():
+        log(f"KNOWN-FINDING: property={pid} {fid}: {h['what']}")
+    return 1 if v.violations else 0
